@@ -563,6 +563,9 @@ class SqlalchemyRender:
 
         query = func(step1, step2)
         if tail is not None:
+            if self.dialect.name == 'mssql' and (tail.limit is not None or tail.offset is not None):
+                # the mssql compiler has no TOP for a combined query (it would drop the limit): select from it
+                query = sa.select(sa.text('*')).select_from(query.subquery())
             query = self.prepare_order_limit(query, tail)
         return query
 
